@@ -147,6 +147,8 @@ def c13Op : List String → Option String
       let b ← parseDevState b; let a ← parseDevState a
       let g ← if got == "none" then some none else (parseMsg got).map some
       pure (toString (retrieveOk g b a))
+  | ["spec.c13.prepare", docs, st] => do
+      let ds ← parseNatList docs; let st ← parseDevState st; pure (toString (prepareOk ds st))
   | ["spec.c13.malformed", st] => do
       let st ← parseDevState st; pure (toString (malformedOk st))
   | ["spec.c13.submit", b, a, o, sig] => do
